@@ -9,8 +9,10 @@ import (
 
 	"github.com/yuin/goldmark"
 	"github.com/yuin/goldmark/ast"
+	"github.com/yuin/goldmark/extension"
 	east "github.com/yuin/goldmark/extension/ast"
 	"github.com/yuin/goldmark/parser"
+	"github.com/yuin/goldmark/renderer/html"
 	"github.com/yuin/goldmark/text"
 	"github.com/yuin/goldmark/util"
 
@@ -33,6 +35,18 @@ type fnProblem struct {
 
 // footnoteOracle checks numbering and cross-links on the strictly tokenized output.
 func footnoteOracle(out []byte) (probs []fnProblem, items, sups int, lexErr *strict.Error) {
+	return footnoteOracleP(out, "")
+}
+
+// footnoteOracleP is the oracle for an instance configured with an id prefix: every generated id is prefix + the usual
+// name. An element whose id lacks the prefix is simply not a footnote item / reference of this document, so a reference
+// that links to it links to nothing.
+func footnoteOracleP(out []byte, prefix string) (probs []fnProblem, items, sups int, lexErr *strict.Error) {
+	reFn, reFnRef := reFn, reFnRef
+	if prefix != "" {
+		reFn = regexp.MustCompile(`^` + regexp.QuoteMeta(prefix) + `fn:(\d+)$`)
+		reFnRef = regexp.MustCompile(`^` + regexp.QuoteMeta(prefix) + `fnref(\d*):(\d+)$`)
+	}
 	toks, err := strict.Tokenize(out)
 	if err != nil {
 		return nil, 0, 0, err
@@ -86,7 +100,7 @@ func footnoteOracle(out []byte) (probs []fnProblem, items, sups int, lexErr *str
 			// the following tokens: <a href="#fn:N" ...> N </a>
 			if i+2 < len(toks) && toks[i+1].Kind == strict.Start && toks[i+1].Name == "a" && toks[i+2].Kind == strict.Text {
 				href, _ := toks[i+1].Attr("href")
-				if href != "#fn:"+m[2] {
+				if href != "#"+prefix+"fn:"+m[2] {
 					probs = append(probs, fnProblem{code: "ref-href-mismatch", msg: fmt.Sprintf("sup %s links to %s", id, href)})
 				}
 				if toks[i+2].Text != m[2] {
@@ -266,6 +280,7 @@ func c16Menu() []c16Item {
 
 func runC16(r *core.Run) {
 	runC16Perms(r)
+	runC16Prefix(r)
 	for _, cn := range []string{"footnote", "all+xhtml"} {
 		docsSub(r, "count-families/"+cn, "the indexed families of CountDocs (n footnotes referenced once or twice with definitions after or before, and the other n-item families, for EVERY n up to the bound) under "+cn+": same output-consistency oracle",
 			core.MustCfg(cn), CountDocs(core.Pick(r, 150, 400)), func(s *core.Sub, cv *core.Conv, w []byte) { c16Case(s, cv, w) })
@@ -383,6 +398,73 @@ func runC16Perms(r *core.Run) {
 		if !complete {
 			s.Incomplete("internal deadline reached")
 		}
+		s.States.Store(s.Evals.Load())
+		s.Transitions.Store(s.Evals.Load())
+		s.Done()
+	}
+}
+
+// runC16Prefix: the same oracle with an id prefix, handed over through every channel: the extension constructor, a
+// renderer option next to the package-level extension value, a late AddOptions call, and the prefix-function form.
+func runC16Prefix(r *core.Run) {
+	pf := func(n ast.Node) []byte { return []byte("p-") }
+	chans := []struct {
+		name string
+		mk   func() goldmark.Markdown
+	}{
+		{"NewFootnote(WithFootnoteIDPrefix)", func() goldmark.Markdown {
+			return goldmark.New(goldmark.WithExtensions(extension.NewFootnote(extension.WithFootnoteIDPrefix("p-"))))
+		}},
+		{"Footnote+WithRendererOptions(WithFootnoteIDPrefix)", func() goldmark.Markdown {
+			return goldmark.New(goldmark.WithExtensions(extension.Footnote), goldmark.WithRendererOptions(extension.WithFootnoteIDPrefix("p-")))
+		}},
+		{"Footnote+Renderer().AddOptions(WithFootnoteIDPrefix)", func() goldmark.Markdown {
+			m := goldmark.New(goldmark.WithExtensions(extension.Footnote))
+			m.Renderer().AddOptions(extension.WithFootnoteIDPrefix([]byte("p-")))
+			return m
+		}},
+		{"NewFootnote(WithFootnoteIDPrefixFunction)", func() goldmark.Markdown {
+			return goldmark.New(goldmark.WithExtensions(extension.NewFootnote(extension.WithFootnoteIDPrefixFunction(pf))))
+		}},
+		{"Footnote+WithRendererOptions(WithFootnoteIDPrefixFunction)", func() goldmark.Markdown {
+			return goldmark.New(goldmark.WithExtensions(extension.Footnote, extension.Table), goldmark.WithRendererOptions(extension.WithFootnoteIDPrefixFunction(pf), html.WithXHTML()))
+		}},
+	}
+	docs := CountDocs(core.Pick(r, 12, 60))
+	menu := c16Menu()
+	for _, a := range menu {
+		for _, b := range menu {
+			docs = append(docs, []byte(a.md+"\n\n"+b.md))
+		}
+	}
+	for _, ch := range chans {
+		s := r.Sub("id-prefix/"+ch.name, fmt.Sprintf("%d documents (count families, every pair of menu items) on an instance whose footnote ids carry the prefix \"p-\" configured through %s: same oracle, every generated id = prefix + name", len(docs), ch.name))
+		s.Bound = fmt.Sprintf("%d documents", len(docs))
+		core.ForEachIndex(len(docs), core.Workers(), func(w int) func(int) {
+			cv := &core.Conv{Cfg: core.MustCfg("footnote"), MD: ch.mk()}
+			return func(i int) {
+				out, ok := mustConvert(s, cv, docs[i])
+				if !ok {
+					return
+				}
+				s.Evals.Add(1)
+				probs, items, sups, lerr := footnoteOracleP(out, "p-")
+				if lerr != nil {
+					s.Violate("lex:"+lerr.Code, ch.name, docs[i], nil, lerr.Error(), "", string(out))
+					return
+				}
+				for _, p := range probs {
+					sig := p.code
+					if p.code == "backlink-dangling" {
+						sig += "|" + danglingFingerprint(core.MustCfg("footnote"), docs[i], p.k, p.n)
+					}
+					s.Violate(sig, ch.name, docs[i], nil, p.msg, "consistent footnote numbering and cross-links (ids with prefix p-)", string(out))
+				}
+				if items > 0 || sups > 0 {
+					s.Distinct(core.Hash(out))
+				}
+			}
+		}, r.Expired)
 		s.States.Store(s.Evals.Load())
 		s.Transitions.Store(s.Evals.Load())
 		s.Done()
